@@ -82,6 +82,8 @@ type pathState struct {
 	pos      int
 	trace    []decision
 	pc       []*Term
+	pcAtoms  [][]*Term
+	uf       map[int32]int32
 	model    *Model
 	atoms    []*Term
 	draws    []draw
@@ -95,6 +97,7 @@ type pathState struct {
 	allocMax *Term
 	freshSeq int
 	allocLimit int64
+	decCache   map[decKey][]value
 }
 
 // freshAtom returns an unconstrained atom with a path-local deterministic
@@ -219,8 +222,156 @@ func (in *interp) assume(t *Term, b bool) {
 	if !b {
 		c = in.tt.Not(t)
 	}
-	in.path.pc = append(in.path.pc, c)
-	in.solver.Assert(c)
+	p := in.path
+	p.pc = append(p.pc, c)
+	as := in.atomsOf(c)
+	p.pcAtoms = append(p.pcAtoms, as)
+	for i := 1; i < len(as); i++ {
+		p.union(as[0].id, as[i].id)
+	}
+	for _, a := range as {
+		p.find(a.id)
+	}
+}
+
+// atomsOf returns the atoms (variables, UF applications) below t, linking
+// defined atoms (quotient/remainder) to the atoms of their definition.
+func (in *interp) atomsOf(t *Term) []*Term {
+	if as, ok := in.atomCache[t.id]; ok {
+		return as
+	}
+	seen := map[int32]bool{}
+	var out []*Term
+	var rec func(x *Term)
+	rec = func(x *Term) {
+		if x.op == OpConst || seen[x.id] {
+			return
+		}
+		seen[x.id] = true
+		switch x.op {
+		case OpVar:
+			out = append(out, x)
+			if x.def != nil {
+				rec(x.def)
+			}
+			for _, sc := range x.side {
+				rec(sc)
+			}
+			return
+		case OpUF:
+			out = append(out, x)
+		}
+		for _, a := range x.args {
+			rec(a)
+		}
+	}
+	rec(t)
+	// dedupe
+	uniq := out[:0:0]
+	d := map[int32]bool{}
+	for _, a := range out {
+		if !d[a.id] {
+			d[a.id] = true
+			uniq = append(uniq, a)
+		}
+	}
+	if in.atomCache == nil {
+		in.atomCache = map[int32][]*Term{}
+	}
+	in.atomCache[t.id] = uniq
+	return uniq
+}
+
+func (p *pathState) find(a int32) int32 {
+	if p.uf == nil {
+		p.uf = map[int32]int32{}
+	}
+	r, ok := p.uf[a]
+	if !ok {
+		p.uf[a] = a
+		return a
+	}
+	if r == a {
+		return a
+	}
+	root := p.find(r)
+	p.uf[a] = root
+	return root
+}
+
+func (p *pathState) union(a, b int32) {
+	ra, rb := p.find(a), p.find(b)
+	if ra != rb {
+		p.uf[ra] = rb
+	}
+}
+
+// relevant returns the path-condition conjuncts in the components of the
+// given atoms (all conjuncts if atoms is nil) and the atoms they mention.
+func (in *interp) relevant(atoms []*Term, all bool) ([]*Term, []*Term) {
+	p := in.path
+	roots := map[int32]bool{}
+	for _, a := range atoms {
+		roots[p.find(a.id)] = true
+	}
+	var cs []*Term
+	seen := map[int32]bool{}
+	var as []*Term
+	for _, a := range atoms {
+		if !seen[a.id] {
+			seen[a.id] = true
+			as = append(as, a)
+		}
+	}
+	for i, c := range p.pc {
+		ca := p.pcAtoms[i]
+		if !all {
+			if len(ca) == 0 || !roots[p.find(ca[0].id)] {
+				continue
+			}
+		}
+		cs = append(cs, c)
+		for _, a := range ca {
+			if !seen[a.id] {
+				seen[a.id] = true
+				as = append(as, a)
+			}
+		}
+	}
+	return cs, as
+}
+
+// solve decides PC ∧ extra restricted to the components that extra touches.
+// With wantModel it merges the model of those components into base.
+func (in *interp) solve(extra *Term, wantModel bool, base *Model) (Result, *Model) {
+	s := in.solver
+	var xa []*Term
+	if extra != nil {
+		xa = in.atomsOf(extra)
+	}
+	cs, as := in.relevant(xa, false)
+	s.Push()
+	for _, c := range cs {
+		s.Assert(c)
+	}
+	if extra != nil {
+		s.Assert(extra)
+	}
+	r := s.Check()
+	var m *Model
+	if r == Sat && wantModel {
+		m = newModel()
+		if base != nil {
+			for k, v := range base.vals {
+				m.vals[k] = v
+			}
+		}
+		if !s.GetValues(as, m) {
+			m = nil
+		}
+	}
+	s.Pop()
+	return r, m
 }
 
 func (in *interp) truth(c value) bool {
@@ -236,37 +387,62 @@ func (in *interp) truth(c value) bool {
 	panic(fmt.Sprintf("truth: %T", c))
 }
 
-// fetchModel reads the values of this path's atoms after a Sat answer.
-func (in *interp) fetchModel() *Model {
-	m := newModel()
-	if !in.solver.GetValues(in.path.atoms, m) {
-		return nil
-	}
-	return m
-}
-
 // ensureModel makes sure the path has a witness model for its current path
-// condition (one check-sat after a replayed prefix).
+// condition (solved component by component after a replayed prefix).
 func (in *interp) ensureModel() {
 	p := in.path
 	if p.model != nil {
 		return
 	}
+	m := newModel()
 	if len(p.pc) == 0 {
-		p.model = newModel()
+		p.model = m
 		return
 	}
-	switch in.solver.Check() {
-	case Sat:
-		p.model = in.fetchModel()
-		if p.model == nil {
+	// group conjuncts by component
+	groups := map[int32][]int{}
+	var order []int32
+	for i := range p.pc {
+		ca := p.pcAtoms[i]
+		if len(ca) == 0 {
+			continue
+		}
+		r := p.find(ca[0].id)
+		if _, ok := groups[r]; !ok {
+			order = append(order, r)
+		}
+		groups[r] = append(groups[r], i)
+	}
+	s := in.solver
+	for _, r := range order {
+		s.Push()
+		var as []*Term
+		seen := map[int32]bool{}
+		for _, i := range groups[r] {
+			s.Assert(p.pc[i])
+			for _, a := range p.pcAtoms[i] {
+				if !seen[a.id] {
+					seen[a.id] = true
+					as = append(as, a)
+				}
+			}
+		}
+		res := s.Check()
+		ok := true
+		if res == Sat {
+			ok = s.GetValues(as, m)
+		}
+		s.Pop()
+		switch {
+		case res == Unsat:
+			panic(in.abort(abortInfeasible, "path condition is infeasible"))
+		case res == Unknown:
+			panic(in.abort(abortInconclusive, "solver unknown on path condition"))
+		case !ok:
 			panic(in.abort(abortInconclusive, "model extraction failed"))
 		}
-	case Unsat:
-		panic(in.abort(abortInfeasible, "path condition is infeasible"))
-	default:
-		panic(in.abort(abortInconclusive, "solver unknown on path condition"))
 	}
+	p.model = m
 }
 
 func (in *interp) decide(t *Term) bool {
@@ -298,10 +474,8 @@ func (in *interp) decide(t *Term) bool {
 	if b {
 		other = in.tt.Not(t)
 	}
-	s := in.solver
-	s.Push()
-	s.Assert(other)
-	switch s.Check() {
+	r, _ := in.solve(other, false, nil)
+	switch r {
 	case Sat:
 		pre := make([]decision, len(p.trace)+1)
 		copy(pre, p.trace)
@@ -310,7 +484,6 @@ func (in *interp) decide(t *Term) bool {
 	case Unknown:
 		in.job().noteNotCovered("solver unknown on a branch")
 	}
-	s.Pop()
 	in.assume(t, b)
 	p.trace = append(p.trace, decision{kind: decBranch, b: b})
 	return b
@@ -364,10 +537,8 @@ func (in *interp) concretize(t *Term, why string) uint64 {
 	if len(excl)+1 > in.cfg.maxValues {
 		in.job().noteNotCovered(fmt.Sprintf("more than %d values at concretisation (%s)", in.cfg.maxValues, why))
 	} else {
-		s := in.solver
-		s.Push()
-		s.Assert(tt.Not(tt.Cmp(OpEq, t, tt.Const(t.W, v))))
-		switch s.Check() {
+		r, _ := in.solve(tt.Not(tt.Cmp(OpEq, t, tt.Const(t.W, v))), false, nil)
+		switch r {
 		case Sat:
 			pre := make([]decision, len(p.trace)+1)
 			copy(pre, p.trace)
@@ -377,7 +548,6 @@ func (in *interp) concretize(t *Term, why string) uint64 {
 		case Unknown:
 			in.job().noteNotCovered("solver unknown at concretisation (" + why + ")")
 		}
-		s.Pop()
 	}
 	in.assume(tt.Cmp(OpEq, t, tt.Const(t.W, v)), true)
 	p.trace = append(p.trace, decision{kind: decValue, v: v})
@@ -400,10 +570,14 @@ func (in *interp) assumeCond(c value) {
 		}
 		in.ensureModel()
 		if p.model.Eval(c.T) == 0 {
-			in.assume(c.T, true)
-			p.model = nil
-			in.ensureModel()
-			return
+			r, m := in.solve(c.T, true, p.model)
+			switch {
+			case r == Unsat:
+				panic(in.abort(abortInfeasible, "assumption is infeasible"))
+			case r == Unknown || m == nil:
+				panic(in.abort(abortInconclusive, "solver unknown on assumption"))
+			}
+			p.model = m
 		}
 		in.assume(c.T, true)
 	}
@@ -425,15 +599,8 @@ func (in *interp) checkAssert(c value, label string) {
 			in.assume(c.T, true)
 			return
 		}
-		s := in.solver
-		s.Push()
-		s.Assert(in.tt.Not(c.T))
-		r := s.Check()
-		var mv *Model
-		if r == Sat {
-			mv = in.fetchModel()
-		}
-		s.Pop()
+		in.ensureModel()
+		r, mv := in.solve(in.tt.Not(c.T), true, p.model)
 		switch r {
 		case Sat:
 			if mv == nil {
